@@ -71,6 +71,7 @@ def reads(rng, g):
            {"op": "cbd", "g": g, "s": rng.choice(SUBJ)}, {"op": "nodes", "g": g}, {"op": "connected", "g": g},
            {"op": "contains", "g": g, "pat": rand_pat(rng)}, {"op": "len", "g": g}]
     out += [{"op": "binop", "g": g, "h": h, "o": o_} for o_ in ("add", "sub", "mul", "xor")]
+    out += [{"op": "binop", "g": g, "h": g, "o": o_} for o_ in ("add", "sub", "mul", "xor")]
     return out
 
 
@@ -135,9 +136,9 @@ def make_jobs(out, tier, seed, stores=None, label=None, light=False):
             elif x < 0.4:
                 evs.append({"op": "remove", "g": g, "pat": rand_pat(rng, 0.4)})
             elif x < 0.47:
-                evs.append({"op": "iadd", "g": g, "h": h})
+                evs.append({"op": "iadd", "g": g, "h": h if rng.random() < 0.8 else g})      # ... now and then the graph itself: g += g, g -= g
             elif x < 0.54:
-                evs.append({"op": "isub", "g": g, "h": h})
+                evs.append({"op": "isub", "g": g, "h": h if rng.random() < 0.8 else g})
             else:
                 evs.append(rng.choice(reads(rng, g)))
         evs += reads(rng, "A") + reads(rng, "B")
